@@ -1,5 +1,6 @@
 import RbV.Ref.BWT
 import RbV.Basic.Sorted
+import RbV.Gen.Occ
 /-
 Mirror models for C04 (src/data_structures/bwt.rs).
 
@@ -43,12 +44,14 @@ def occNew (bwt : List Nat) (k c : Nat) : List Nat :=
 /-- count of c in bwt[lo..=hi] (bytecount::count(&bwt[lo..=hi], a)) -/
 def cnt (bwt : List Nat) (lo hi c : Nat) : Nat := ((bwt.drop lo).take (hi + 1 - lo)).count c
 
-/-- `Occ::get(bwt, r, c)` on the checkpoint column `cp` of symbol `c` -/
+/-- `Occ::get(bwt, r, c)` on the checkpoint column `cp` of symbol `c`.  The sampling-rate threshold of the look-ahead
+shortcut (`if self.k > 64`) is **not copied**: `Gen.Occ.hiCheckpointThreshold` is extracted from the source text on
+every run (tools/gen_tables.py); `occ_get_eq` below does not depend on its value. -/
 def occGet (cp : List Nat) (bwt : List Nat) (k r c : Nat) : Nat :=
   let lo := r / k
   let loOcc := cp.getD lo 0
   let fwd := cnt bwt (lo * k + 1) r c + loOcc
-  if k > 64 then
+  if k > Gen.Occ.hiCheckpointThreshold then
     match cp[lo + 1]? with
     | some hiOcc =>
       if loOcc = hiOcc then loOcc
@@ -61,7 +64,7 @@ def occGet (cp : List Nat) (bwt : List Nat) (k r c : Nat) : Nat :=
 /-- which branch of `Occ::get` answers the query (for the evidence tags) -/
 def occBranch (cp : List Nat) (k r : Nat) : String :=
   let lo := r / k
-  if k > 64 then
+  if k > Gen.Occ.hiCheckpointThreshold then
     match cp[lo + 1]? with
     | some hiOcc =>
       if cp.getD lo 0 = hiOcc then "early-exit"
